@@ -60,9 +60,17 @@ def run_sessions(prog):
     d = driver.scratch_dir()
     try:
         driver.write_project(d, {"test_p.py": prog["source"].replace("assert check(", "assert (")})
-        r1 = driver.run_pytest(d, ["--inline-snapshot=create,fix,trim,update"])
+        env = None
+        if prog.get("bytecode"):
+            # Python's default: byte code (also pytest's rewritten modules) is cached and validated by mtime and size of the source
+            import os
+            import time
+            env = {"PYTHONDONTWRITEBYTECODE": ""}
+            old = time.time() - 3600
+            os.utime(d / "test_p.py", (old, old))
+        r1 = driver.run_pytest(d, ["--inline-snapshot=create,fix,trim,update"], env=env)
         f1 = (d / "test_p.py").read_bytes()
-        r2 = driver.run_pytest(d, ["--inline-snapshot=create,fix,trim,update"])
+        r2 = driver.run_pytest(d, ["--inline-snapshot=create,fix,trim,update"], env=env)
         f2 = (d / "test_p.py").read_bytes()
         out2 = r2["stdout"]
         return {"rc1": r1["rc"], "rc2": r2["rc"], "same": f1 == f2, "panel": any(w in out2 for w in ("Create snapshots", "Fix snapshots", "Trim snapshots", "Update snapshots")),
@@ -130,6 +138,10 @@ def run(ctx: Ctx):
     ctx.sample({"program_tail": progs[0]["source"][-500:], "flags": progs[0]["flags"], "after_first_run_tail": outs[0].get("f1", "")[-500:]})
     # C
     sp = [gen_prog(ctx.rng, 2 * i) for i in range(12 if not ctx.thorough else 100)]
+    # rewrites that keep the size of the file, with byte-code caching switched on (the rewritten file must not look unchanged to the import system)
+    SAME_SIZE = ("from inline_snapshot import snapshot\n\n\ndef test_a():\n    assert 2 == snapshot(1)\n    assert 'abd' == snapshot('abc')\n\n\n"
+                 "def test_b():\n    for x in (1, 2):\n        assert x <= snapshot(1)\n")
+    sp += [{"source": SAME_SIZE, "bytecode": True}, {"source": SAME_SIZE.replace("2 == snapshot(1)", "7 == snapshot(5)"), "bytecode": True}]
     for p, o in zip(sp, tmap(run_sessions, sp)):
         ctx.count(("session", p["source"]), True)
         why = None
@@ -142,7 +154,7 @@ def run(ctx: Ctx):
         elif o["panel"]:
             why = "the second session shows a pending diff"
         if why:
-            ctx.report("C08 oracle (sessions): " + why, {"kind": "session", "source": p["source"], "after": o["f2"], "output": o["tail"]}, tag=classify(p, {"f2": o["f2"]}))
+            ctx.report("C08 oracle (sessions): " + why, {"kind": "session", "source": p["source"], "bytecode": p.get("bytecode"), "after": o["f2"], "output": o["tail"]}, tag=classify(p, {"f2": o["f2"]}))
     ctx.coverage["oracle"]["session_pairs"] = len(sp)
 
 
@@ -170,7 +182,7 @@ def replay(ctx: Ctx, data):
         print(o["f1"][-800:], o["f2"][-800:], o["reported2"])
         return judge({"flags": tuple(c["flags"])}, o) is None
     if c.get("kind") == "session":
-        o = run_sessions({"source": c["source"]})
+        o = run_sessions({"source": c["source"], "bytecode": c.get("bytecode")})
         print(o["tail"])
         return o["same"] and o["rc2"] == 0 and not o["panel"]
     return True
